@@ -31,8 +31,8 @@ LEVEL_TEXT = ("Exploration: every catalogue entry is executed under every closur
 LEVEL_NOTE = ("Catalogue-bounded: cycle kinds outside the listed seven are not generated. C-stack "
               "exhaustion under a raised recursion limit is observed as a signal of the child.")
 
-SHAPES = ["use", "extends_same", "extends_cross", "submodule", "pointer", "associate", "tbp",
-          "include", "ppinclude", "interface_proc", "use_only_rename"]
+SHAPES = ["use", "extends_same", "extends_cross", "submodule", "submodule_direct", "pointer", "associate",
+          "tbp", "include", "include_scoped", "include_mixed", "ppinclude", "interface_proc", "use_only_rename"]
 CLOSURES = ["startup", "last_open", "edit_save", "break_reclose"]
 
 
@@ -110,6 +110,33 @@ def build(shape, L, tag):
             f[f"sbs_{T}.f90"] = (f"submodule (sbs_{T}) sbs_{T}\ncontains\n  subroutine q_{T}()\n  end subroutine\n"
                                  f"end submodule\n")
         brk = (f"sb0_{T}.f90", f"submodule (par_{T}:sb{nxt(0, L)}_{T}) sb0_{T}", f"submodule (par_{T}) sb0_{T}")
+    elif shape == "submodule_direct":
+        # submodules naming each other (or themselves) directly as parent
+        f[f"sd_{T}.f90"] = (f"module pard_{T}\n  implicit none\n  integer :: pv_{T}\nend module pard_{T}\n")
+        for i in range(L):
+            j = nxt(i, L)
+            f[f"sd{i}_{T}.f90"] = (
+                f"submodule (sd{j}_{T}) sd{i}_{T}\n  implicit none\n  integer :: kd{i}_{T}\ncontains\n"
+                f"  subroutine wd{i}_{T}(a)\n    integer :: a\n    kd{i}_{T} = a + kd{j}_{T} + pv_{T}\n"
+                f"    call wd{j}_{T}(a)\n  end subroutine\nend submodule sd{i}_{T}\n")
+        brk = (f"sd0_{T}.f90", f"submodule (sd{nxt(0, L)}_{T}) sd0_{T}", f"submodule (pard_{T}) sd0_{T}")
+    elif shape == "include_scoped":
+        # INCLUDE cycles where the INCLUDE statements sit inside program units
+        for i in range(L):
+            j = nxt(i, L)
+            f[f"is{i}_{T}.f90"] = (f"subroutine is{i}_{T}()\n  integer :: iw{i}_{T}\n  include 'is{j}_{T}.f90'\n"
+                                   f"  iw{i}_{T} = 1\nend subroutine is{i}_{T}\n")
+        f[f"ismain_{T}.f90"] = (f"program pis_{T}\n  include 'is0_{T}.f90'\n  call is0_{T}()\nend program\n")
+        brk = (f"is0_{T}.f90", f"  include 'is{nxt(0, L)}_{T}.f90'", "  ! include removed")
+    elif shape == "include_mixed":
+        # included files with top-level declarations *and* a program unit that includes the next
+        for i in range(L):
+            j = nxt(i, L)
+            f[f"im{i}_{T}.f90"] = (f"integer :: mv{i}_{T}\nsubroutine mq{i}_{T}()\n  include 'im{j}_{T}.f90'\n"
+                                   f"  mv{j}_{T} = 1\nend subroutine mq{i}_{T}\n")
+        f[f"immain_{T}.f90"] = (f"program pim_{T}\n  implicit none\n  include 'im0_{T}.f90'\n  mv0_{T} = 2\n"
+                                f"end program\n")
+        brk = (f"im0_{T}.f90", f"  include 'im{nxt(0, L)}_{T}.f90'", "  ! include removed")
     elif shape == "pointer":
         decl = []
         for i in range(L):
